@@ -257,6 +257,9 @@ def _is_nested(decls, dec):
 
 T1, T2, T3 = 'verif::T1', 'verif::T2', 'verif::T3'
 T4 = 'const verif::T4&'      # an extern whose C++ type is spelled as a const reference
+# the same four externs in spellings that are not '::'-separated identifier chains (the templates are in verif_probe.hh)
+EXOTIC = {'T1': 'verif::Pair<int, long>', 'T2': 'verif::Fn<void(int)>', 'T3': '::verif::Num<-1>',
+          'T4': 'const struct verif::T4 &'}
 
 BASE_POINT = {
     'ns': 'N',            # D1: '' | 'N' | 'N.M'
@@ -284,6 +287,10 @@ BASE_POINT = {
     'portorder': 'grouped',  # D14: ports declared grouped by direction | interleaved (provides, requires, provides, ...)
     'nameform': 'plain',  # D13: how port names reach the configuration: plain str | instances of a str subclass with its own __str__
     'stem': 'M',          # D12: name of the Dezyne source file (= prefix of the shell's name): 'M' | a 52-character name
+    'extspell': 'plain',  # D15: how the externs spell their C++ type: plain (verif::T1) | exotic (template with a comma and a
+                          #      blank, a function signature in parentheses, a leading '::' with a negative template argument,
+                          #      an elaborated type specifier with a blank before '&')
+    'cxxflags': 'debug',  # D16: how the user's project compiles the generated code: debug (-O0) | release (-O2 -DNDEBUG)
 }
 
 DIMS = {
@@ -310,6 +317,8 @@ DIMS = {
     'stem': ['M', 'VeryLongDezyneModelFileNameForTheHeatingSubsystemCtrl'],
     'nameform': ['plain', 'subclass'],
     'portorder': ['grouped', 'interleaved'],
+    'extspell': ['plain', 'exotic'],
+    'cxxflags': ['debug', 'release'],
 }
 
 PORT_NAMES = {'plain': (['p', 'p2', 'p3'], ['r', 'r2', 'r3'], ['inj', 'inj2', 'inj3']),
@@ -425,6 +434,8 @@ def valid_point(pt):
     if pt['spell'] == 'partial' and pt['place'] not in ('sibling', 'same') :
         return False
     if pt['spell'] == 'partial' and len(ns) < 2 and pt['place'] == 'same':
+        return False
+    if pt.get('extspell', 'plain') != 'plain' and pt.get('extscope') == 'split':
         return False
     if pt.get('share') == 'aba' and (max(pt['nprov'], pt['nreq']) < 3 or pt.get('extscope') == 'split'):
         return False
@@ -584,6 +595,8 @@ def build_model(pt):
     else:
         comp = ['component', 'Comp', ports]
     externs = [] if split else [['extern', 'T1', T1], ['extern', 'T2', T2], ['extern', 'T3', T3], ['extern', 'T4', T4]]
+    if not split and pt.get('extspell', 'plain') == 'exotic':
+        externs = [['extern', t, EXOTIC[t]] for t in ('T1', 'T2', 'T3', 'T4')]
 
     def nest(path, nodes):
         for ident in reversed(path):
